@@ -165,6 +165,12 @@ if hasattr(ElementTree, '_serialize'):
             write("\n<{tag}{text}]]>\n".format(
                 tag=elem.tag, text=escape_CDATA(elem.text)))
             return
+        # -- ENSURE: Attribute values contain only valid XML chars
+        # (names and messages may contain control chars, ANSI escapes, ...).
+        for name, value in list(elem.attrib.items()):
+            if isinstance(value, six.text_type):
+                elem.attrib[name] = _escape_invalid_xml_chars(
+                    ansi_escapes.strip_escapes(value))
         if short_empty_elements:
             # python >=3.3
             return orig(write, elem, qnames, namespaces, short_empty_elements)
